@@ -144,26 +144,50 @@ StdConc == Qty(NOne, <<[n |-> "molar", p |-> 1]>>)
 PerKTimeDim == VAdd(VMul(Th1, -1), VMul(T1, -1))
 \* the dimension the constant k of a record must have
 \*   "radiolytic": rate = G * density * doserate, whatever the concentrations (k = G, a yield in amount/energy)
+\*   "eyringhs":   k_eff = (kB/h) * T * exp(-(dH - T dS)/(R T)) * conc0^(1-n)   (k = dH in energy/amount, ea = dS in
+\*                 energy/(amount temperature); kB, h, R come from a namespace of physical constants and enter as
+\*                 opaque generators of the scale lattice: their numbers are irrelevant, they only have to be carried
+\*                 through every unit system unchanged)
+MolarEnergyDim == D(2, 1, -2, 0, 0, -1)
+MolarEntropyDim == D(2, 1, -2, 0, -1, -1)
 KParamDim(rec) == IF LawOf(rec) = "eyring" THEN PerKTimeDim
-                  ELSE IF LawOf(rec) = "radiolytic" THEN YieldDim ELSE RateDim(Order(rec.rx))
+                  ELSE IF LawOf(rec) = "radiolytic" THEN YieldDim
+                  ELSE IF LawOf(rec) = "eyringhs" THEN MolarEnergyDim ELSE RateDim(Order(rec.rx))
+EaDim(rec) == IF LawOf(rec) = "eyringhs" THEN MolarEntropyDim ELSE Th1
+\* the physical constants as quantities of size one generator each
+ConstQ(g, dim) == [mag |-> NOne, ux |-> <<>>, unit |-> U(dim, SO(g, 1))]
+KBQ == ConstQ("kB", D(2, 1, -2, 0, -1, 0))
+HPQ == ConstQ("hP", D(2, 1, -1, 0, 0, 0))
+RGQ == ConstQ("R", MolarEntropyDim)
 \* the rational part of the effective rate constant, in SI
 PreSI(rec) == IF LawOf(rec) = "eyring"
               THEN NMul(NMul(SIValue(rec.k), SIValue(TempQ)), NPow(SIValue(StdConc), 1 - Order(rec.rx)))
+              ELSE IF LawOf(rec) = "eyringhs"
+              THEN NMul(NMul(NMul(SIValue(KBQ), NInv(SIValue(HPQ))), SIValue(TempQ)), NPow(SIValue(StdConc), 1 - Order(rec.rx)))
               ELSE IF LawOf(rec) = "radiolytic"
               THEN NMul(NMul(SIValue(rec.k), SIValue(EnvOf.density)), SIValue(EnvOf.doserate))
               ELSE SIValue(rec.k)
-HasExp(rec) == LawOf(rec) \in {"arrhenius", "eyring"}
-ExpoOf(rec) == IF HasExp(rec) THEN NMul(SIValue(rec.ea), NInv(SIValue(TempQ))) ELSE NZero
+HasExp(rec) == LawOf(rec) \in {"arrhenius", "eyring", "eyringhs"}
+\* the rate carries the factor exp(-(x + x2)):  x = Ea/T resp. dH/(R T),  x2 = -dS/R (eyringhs only)
+ExpoOf(rec) == IF LawOf(rec) = "eyringhs" THEN NMul(SIValue(rec.k), NInv(NMul(SIValue(RGQ), SIValue(TempQ))))
+               ELSE IF HasExp(rec) THEN NMul(SIValue(rec.ea), NInv(SIValue(TempQ))) ELSE NZero
+Expo2Of(rec) == IF LawOf(rec) = "eyringhs" THEN NMul(NFromQ(<<-1, 1>>), NMul(SIValue(rec.ea), NInv(SIValue(RGQ)))) ELSE NZero
 ConcPart(rec, val) == IF LawOf(rec) = "radiolytic" THEN NOne ELSE NProdOver(1, rec.rx.reac, val)
 \* the rate of reaction rec directly in SI (without the factor exp(-ExpoOf(rec)))
 RateSI(rec, conc) == NMul(PreSI(rec), ConcPart(rec, [s \in SubstSet |-> SIValue(conc[s])]))
 \* the same rate through a registry
+\* the exponent of an eyringhs rate computed from unitless numbers in a registry
+ExpoVia(reg, rec) == NMul(MagInU(rec.k, RegUnit(reg, MolarEnergyDim)),
+                          NInv(NMul(MagInU(RGQ, RegUnit(reg, MolarEntropyDim)), MagInU(TempQ, RegUnit(reg, Th1)))))
 TimeUnit(reg) == RegUnit(reg, T1)
 ConcUnit(reg) == RegUnit(reg, ConcDim)
 KIn(reg, rec) == MagInU(rec.k, RegUnit(reg, KParamDim(rec)))
 TIn(reg, q) == MagInU(q, RegUnit(reg, Th1))
 PreVia(reg, rec) == IF LawOf(rec) = "eyring"
                     THEN NMul(NMul(KIn(reg, rec), TIn(reg, TempQ)), NPow(MagInU(StdConc, RegUnit(reg, ConcDim)), 1 - Order(rec.rx)))
+                    ELSE IF LawOf(rec) = "eyringhs"
+                    THEN NMul(NMul(NMul(MagInU(KBQ, RegUnit(reg, KBQ.unit.dim)), NInv(MagInU(HPQ, RegUnit(reg, HPQ.unit.dim)))), TIn(reg, TempQ)),
+                              NPow(MagInU(StdConc, RegUnit(reg, ConcDim)), 1 - Order(rec.rx)))
                     ELSE IF LawOf(rec) = "radiolytic"
                     THEN NMul(NMul(KIn(reg, rec), MagInU(EnvOf.density, RegUnit(reg, DensityDim))),
                               MagInU(EnvOf.doserate, RegUnit(reg, DoserateDim)))
@@ -174,7 +198,7 @@ RateVia(reg, rec, conc) ==
     NShift(NMul(PreVia(reg, rec), ConcPart(rec, [s \in SubstSet |-> CIn(reg, conc[s])])), BackScale(reg))
 \* d[s]/dt as the list of its terms (coefficient, reaction rate in SI); their sum is the rate
 Terms(s) == LET js == SelectSeq([j \in 1..Len(sys) |-> j], LAMBDA j : Net(sys[j].rx, s) # 0)
-            IN  [i \in 1..Len(js) |-> [c |-> Net(sys[js[i]].rx, s), r |-> RateSI(sys[js[i]], cond.conc), x |-> ExpoOf(sys[js[i]])]]
+            IN  [i \in 1..Len(js) |-> [c |-> Net(sys[js[i]].rx, s), r |-> RateSI(sys[js[i]], cond.conc), x |-> ExpoOf(sys[js[i]]), x2 |-> Expo2Of(sys[js[i]])]]
 AllMass == \A j \in 1..Len(sys) : LawOf(sys[j]) = "mass"
 AllZeroOrder == AllMass /\ \A j \in 1..Len(sys) : Order(sys[j].rx) = 0
 \* exact end state when every reaction has order zero: c0 + sum net * k * (t1 - t0), t0 = 0
@@ -246,13 +270,14 @@ E_PhysicalRate(reg) ==
     [ rates |-> [s \in SubstSet |-> Terms(s)],
       back |-> NOfScale(BackScale(reg)),
       kin |-> [j \in 1..Len(sys) |-> KIn(reg, sys[j])],
-      ein |-> [j \in 1..Len(sys) |-> IF LawOf(sys[j]) = "mass" THEN NZero ELSE TIn(reg, sys[j].ea)],
+      ein |-> [j \in 1..Len(sys) |-> IF HasExp(sys[j]) THEN MagInU(sys[j].ea, RegUnit(reg, EaDim(sys[j]))) ELSE NZero],
       tin |-> TIn(reg, TempQ), t_unit |-> RegUnit(reg, Th1),
       \* density and dose rate are parameters of every call when a radiolytic yield is present
       din |-> MagInU(EnvOf.density, RegUnit(reg, DensityDim)), d_unit |-> RegUnit(reg, DensityDim),
       rin |-> MagInU(EnvOf.doserate, RegUnit(reg, DoserateDim)), r_unit |-> RegUnit(reg, DoserateDim),
       \* the rate of every single reaction (rate_exprs_cb), same convention as the terms
-      rrates |-> [j \in 1..Len(sys) |-> [c |-> 1, r |-> RateSI(sys[j], cond.conc), x |-> ExpoOf(sys[j])]],
+      rrates |-> [j \in 1..Len(sys) |-> [c |-> 1, r |-> RateSI(sys[j], cond.conc), x |-> ExpoOf(sys[j]), x2 |-> Expo2Of(sys[j])]],
+      e_units |-> [j \in 1..Len(sys) |-> RegUnit(reg, EaDim(sys[j]))],
       tev |-> MagInU(cond.t1, TimeUnit(reg)),
       cin |-> [s \in SubstSet |-> CIn(reg, cond.conc[s])],
       p_units |-> [j \in 1..Len(sys) |-> RegUnit(reg, KParamDim(sys[j]))],
@@ -288,6 +313,7 @@ LawTag(j) == IF j > Len(sys) THEN "" ELSE "/" \o LawOf(sys[j]) \o LawTag(j + 1)
 \* (an output unit that is not given - written <<>> - means the registry's own unit)
 OutC(oc) == IF oc = <<>> THEN ConcUnit(conf.reg) ELSE UnitOf(oc)
 OutT(ot) == IF ot = <<>> THEN TimeUnit(conf.reg) ELSE UnitOf(ot)
+ZTag(sb) == IF NIsZero(cond.conc[sb].mag) THEN sb ELSE ""
 E_Output(oc, ot) ==
     [ y0 |-> [s \in SubstSet |-> MagInU(cond.conc[s], OutC(oc))],
       x1 |-> MagInU(cond.t1, OutT(ot)),
@@ -297,7 +323,7 @@ E_Output(oc, ot) ==
       cmag |-> (oc # <<>>), tmag |-> (ot # <<>>),
       exact |-> AllZeroOrder,
       yend |-> IF AllZeroOrder THEN [s \in SubstSet |-> EndTerms(s)] ELSE [s \in SubstSet |-> <<>>],
-      group |-> conf.name \o LawTag(1) \o "/" \o EnvOf.tsrc ]       \* one physical problem = one system with one assignment of laws
+      group |-> conf.name \o LawTag(1) \o "/" \o EnvOf.tsrc \o "/absent:" \o ZTag("A") \o ZTag("B") \o ZTag("C") \o ZTag("D") ]       \* one physical problem = one system with one assignment of laws
 Output(oc, ot) ==
     /\ kstage = "rates" /\ IsUExpr(oc) /\ IsUExpr(ot) /\ OutC(oc).dim = ConcDim /\ OutT(ot).dim = T1
     /\ KLog([op |-> "output", oc |-> oc, ot |-> ot], E_Output(oc, ot))
@@ -357,7 +383,12 @@ Idx(seq, x) == CHOOSE i \in 1..Len(seq) : seq[i] = x
 \* reaction j takes the (j-1)-th successor of the chosen units, so that constants of one system differ
 LawSeq == <<"mass", "arrhenius", "eyring">>
 \* plans: one law for every reaction, "alt" (cycling), "rad" (the first reaction is a radiolytic source, the rest mass action)
-LawFor(plan, j) == IF plan = "alt" THEN Cyc(LawSeq, j) ELSE IF plan = "rad" THEN (IF j = 1 THEN "radiolytic" ELSE "mass") ELSE plan
+LawFor(plan, j) == IF plan = "alt" THEN Cyc(LawSeq, j) ELSE IF plan = "rad" THEN (IF j = 1 THEN "radiolytic" ELSE "mass")
+                   ELSE IF plan = "hs" THEN "eyringhs" ELSE plan
+DHSI == <<<<5000, 1>>, <<2500, 1>>, <<7500, 1>>, <<1200, 1>>>>          \* J/mol
+DSSI == <<<<10, 1>>, <<-5, 1>>, <<20, 1>>, <<3, 1>>>>                  \* J/(K mol)
+DHUx == <<<<F("J", 1), F("mol", -1)>>, <<F("kilojoule", 1), F("mol", -1)>>, <<F("J", 1), F("mmol", -1)>>>>
+DSUx == <<<<F("J", 1), F("K", -1), F("mol", -1)>>, <<F("kilojoule", 1), F("K", -1), F("mol", -1)>>>>
 YieldUx == <<<<F("per100eV", 1)>>, <<F("umol_per_J", 1)>>, <<F("mol", 1), F("J", -1)>>, <<F("mmol", 1), F("kilojoule", -1)>>>>
 GSI == <<5, 2>>                       \* mol/J  (a huge yield, so that the source term is comparable with the other rates)
 EnvFor(plan, tsrc) ==
@@ -376,7 +407,10 @@ KuxLaw(name, tn, cn, wrong, plan) ==
     [j \in 1..Len(SysLib[name]) |->
         IF LawFor(plan, j) = "eyring" THEN <<F("K", -1), F(Cyc(TimeSeq, Idx(TimeSeq, tn) + j - 1), -1)>>
         ELSE IF LawFor(plan, j) = "radiolytic" THEN Cyc(YieldUx, Idx(TimeSeq, tn) + Idx(ConcKeys, cn))
+        ELSE IF LawFor(plan, j) = "eyringhs" THEN Cyc(DHUx, Idx(TimeSeq, tn) + j)
         ELSE KuxFor(name, tn, cn, wrong)[j]]
+\* zero is a concentration too: from plan 5 on substance B is absent, from plan 6 on A as well
+CSIFor(plan) == [s \in SubstSet |-> IF (plan >= 5 /\ s = "B") \/ (plan >= 6 /\ s = "A") THEN <<0, 1>> ELSE CSI[s]]
 CuxFor(plan) == [s \in SubstSet |-> ConcUx[Cyc(ConcKeys, plan + Idx(Subst, s))]]
 
 GenRateAccept == \E tpl \in DOMAIN RxLib, tn \in KTimes, cn \in KConcs, w \in Wrongs, kf \in KForms, how \in Hows :
@@ -385,15 +419,18 @@ GenRateAccept == \E tpl \in DOMAIN RxLib, tn \in KTimes, cn \in KConcs, w \in Wr
 GenKAccept == \E tpl \in EqTemplates, cn \in KConcs, w \in EqWrongs, kf \in KForms, how \in Hows :
                      "accept" \in Modes /\ (how # "init" => kf = "quantity")
                      /\ KAcceptV(RxLib[tpl], WrongKUx(w, DNu(RxLib[tpl]), cn), kf, how)
+KSIFor(law, j) == IF law = "radiolytic" THEN GSI ELSE IF law = "eyringhs" THEN DHSI[j] ELSE KSI[j]
 GenSetSystem == \E name \in Systems, tn \in KTimes, cn \in KConcs, w \in (Wrongs \cap {"none", "conc-", "time2"}), plan \in Laws :
                      (w # "none" => plan = "mass") /\
                      SetSystem(name, [j \in 1..Len(SysLib[name]) |->
                                         [rx |-> RxLib[SysLib[name][j]],
-                                         k |-> Written(IF LawFor(plan, j) = "radiolytic" THEN GSI ELSE KSI[j], KuxLaw(name, tn, cn, w, plan)[j]),
-                                         law |-> LawFor(plan, j), ea |-> Written(EASI[j], <<F("K", 1)>>)]])
+                                         k |-> Written(KSIFor(LawFor(plan, j), j), KuxLaw(name, tn, cn, w, plan)[j]),
+                                         law |-> LawFor(plan, j),
+                                         ea |-> IF LawFor(plan, j) = "eyringhs" THEN Written(DSSI[j], Cyc(DSUx, Idx(ConcKeys, cn) + j))
+                                                ELSE Written(EASI[j], <<F("K", 1)>>)]])
 GenSetConditions == \E plan \in CPlans, tn \in TUnits, tsrc \in TSources :
                      (Modes \ {"accept", "solver"}) # {} /\ (tsrc # "param" => ~AllMass)
-                     /\ SetConditionsE([s \in SubstSet |-> Written(CSI[s], CuxFor(plan)[s])],
+                     /\ SetConditionsE([s \in SubstSet |-> Written(CSIFor(plan)[s], CuxFor(plan)[s])],
                                        Written(<<0, 1>>, <<F(tn, 1)>>), Written(T1SI, <<F(tn, 1)>>), EnvFor(plan, tsrc))
 GenPhysicalRate == \E reg \in KRegs, mode \in (Modes \ {"accept", "solver"}) : PhysicalRate(reg, mode)
 GenOutput == \E o \in Outs : Output(IF o[1] = "none" THEN <<>> ELSE ConcUx[o[1]], IF o[2] = "none" THEN <<>> ELSE <<F(o[2], 1)>>)
@@ -402,9 +439,12 @@ GenOutput == \E o \in Outs : Output(IF o[1] = "none" THEN <<>> ELSE ConcUx[o[1]]
 \* ("good2"), another problem in the units of "good" ("goodval"), and calls in which one constant has a
 \* wrong dimension ("bad": the first one, concentration power off; "bad2": the last one, per time squared)
 KSI2 == <<<<1, 2>>, <<9, 10>>, <<5, 4>>, <<2, 3>>>>
+\* a call kind is [k, z]: k as above, z the set of substances that are ABSENT (concentration zero) in the call -
+\* a constant of the wrong dimension has to be refused also when its reaction does not run at the given state
 AllCallKinds == {"good", "good2", "goodval", "bad", "bad2"}
-CallVar(v) ==
-    LET shift == IF v \in {"good2", "bad2"} THEN 2 ELSE 0
+CallVar(vz) ==
+    LET v == vz.k
+        shift == IF v \in {"good2", "bad2"} THEN 2 ELSE 0
         n == Len(sys)
         kux(j) == LET order == Order(sys[j].rx)
                       t == Cyc(TimeSeq, j + shift)  c == Cyc(ConcKeys, j + shift)
@@ -413,11 +453,11 @@ CallVar(v) ==
                       ELSE RateUx(order, c, t)
         ksi(j) == IF v = "goodval" THEN KSI2[j] ELSE KSI[j]
     IN  [ ks |-> [j \in 1..n |-> Written(ksi(j), kux(j))],
-          conc |-> [s \in SubstSet |-> Written(CSI[s], CuxFor(shift)[s])],
+          conc |-> [s \in SubstSet |-> Written(IF s \in vz.z THEN <<0, 1>> ELSE CSI[s], CuxFor(shift)[s])],
           t1 |-> Written(T1SI, <<F(Cyc(TimeSeq, 1 + shift), 1)>>) ]
 GenMakeSolver == \E reg \in KRegs : "solver" \in Modes /\ MakeSolver(reg)
 GenSolve == \E v \in CallKinds : NCalls < MaxCalls /\ Solve(CallVar(v))
-GenValidate == \E v \in (CallKinds \cap {"good", "bad"}) : NCalls < MaxCalls /\ Validate(CallVar(v))
+GenValidate == \E v \in { c \in CallKinds : c.k \in {"good", "bad"} } : NCalls < MaxCalls /\ Validate(CallVar(v))
 GenFinishSolver == NCalls = MaxCalls /\ FinishSolver
 
 KNext == GenRateAccept \/ GenKAccept \/ GenSetSystem \/ Build \/ GenSetConditions \/ GenPhysicalRate \/ GenOutput
@@ -430,12 +470,14 @@ KDone == kstage = "done"
 \* the physical rate does not depend on the registry (nor, by construction of Written, on the units chosen)
 RegistryIndependent ==
     (kstage = "conditions" /\ AllAccepted) =>      \* sys and cond do not change afterwards
-        \A reg \in KRegs : \A j \in 1..Len(sys) : RateVia(reg, sys[j], cond.conc) = RateSI(sys[j], cond.conc)
+        \A reg \in KRegs : \A j \in 1..Len(sys) :
+            /\ RateVia(reg, sys[j], cond.conc) = RateSI(sys[j], cond.conc)
+            /\ (LawOf(sys[j]) = "eyringhs" => ExpoVia(reg, sys[j]) = ExpoOf(sys[j]))
 \* the written problem is the physical problem
 WrittenIsPhysical ==
     /\ (sys # <<>> /\ AllAccepted) => \A j \in 1..Len(sys) :
-            SIValue(sys[j].k) = NFromQ(IF LawOf(sys[j]) = "radiolytic" THEN GSI ELSE KSI[j])
-    /\ ("conc" \in DOMAIN cond) => \A s \in SubstSet : SIValue(cond.conc[s]) = NFromQ(CSI[s])
+            SIValue(sys[j].k) = NFromQ(KSIFor(LawOf(sys[j]), j))
+    /\ ("conc" \in DOMAIN cond) => \A s \in SubstSet : SIValue(cond.conc[s]) \in {NFromQ(CSI[s]), NZero}
 \* a constant of the wrong dimension makes the unitless rate depend on the registry: this is why it must be refused
 RefusedOnlyIfWrongDimension ==
     \A i \in 1..Len(khist) : khist[i].a.op = "rate_accept" =>
